@@ -15,7 +15,7 @@ PKG = "vcr/verifier"
 HARNESS = ["vcr/verifier/zz_verif_c01_test.go"]
 
 REQUIRED = ["check_order_irrelevant_for_accept", "valid_only_if", "key_is_from_the_issuers_document",
-            "vp_valid_only_if", "vp_every_other_credential_is_signature_checked", "fact_check_signature_flag_is_per_credential", "untrust_is_effective", "untrusted_issuer_is_rejected", "fact_trust_store_code", "vp_check_order_irrelevant_for_accept", "empty_presentation_holder_is_not_checked",
+            "vp_valid_only_if", "vp_every_other_credential_is_signature_checked", "fact_check_signature_flag_is_per_credential", "untrust_is_effective", "untrusted_issuer_is_rejected", "fact_trust_store_code", "fact_wiring", "api_vc_valid_only_if", "wallet_lists_only_current_unrevoked", "wallet_validate_ok", "vp_check_order_irrelevant_for_accept", "empty_presentation_holder_is_not_checked",
             "tamper_evident", "tamper_evident_jwt", "tamper_evident_vp", "undefined_member_unsigned",
             "own_output_verifies_ld", "own_output_verifies_jwt", "own_presentation_verifies",
             "fact_verify_check_sequence", "fact_doVerifyVP_check_sequence", "fact_jsonldProof_check_sequence",
@@ -181,6 +181,42 @@ def run(ctx):
     ctx.oblige("oracle:forged-credential-in-presentation-rejected-in-every-position(impl)", forged_accepted == 0 and (n_mix > 0 or bool(ctx.replay)),
                f"{forged_accepted} wrong verdicts of {n_mix} mixed presentations")
 
+    # ---------------- sibling entry points and edges
+    edge_bad = n_edge = 0
+    for i, op in enumerate(ops):
+        k = op.get("op")
+        if k in ("vc", "vp") and op.get("via") == "api":
+            n_edge += 1
+            ok_line = impl[i].startswith("ok")
+            if op.get("apiStatus") == "200" and bool(op.get("apiValidity")) != ok_line or (op.get("apiStatus") != "200" and ok_line):
+                edge_bad += 1
+                ctx.violation("C01:api-validity-inconsistent:" + k, f"{op['label']}: API status {op.get('apiStatus')} validity {op.get('apiValidity')} vs verdict {impl[i]}",
+                              "api-validity.jsonl", replay_text(i))
+        elif k == "expect":
+            n_edge += 1
+            if impl[i] != op.get("expect"):
+                edge_bad += 1
+                ctx.violation("C01:" + str(op.get("kind")) + ":" + op.get("label", ""), f"{op.get('label')}: {impl[i]} but the property demands {op.get('expect')}",
+                              "expect.jsonl", replay_text(i))
+        elif k == "wallet-list":
+            n_edge += 1
+            listed = set(filter(None, impl[i][len("wallet:"):].split(",")))
+            for d in op.get("creds") or []:
+                inside = d["issued"] <= op["now"] + 5000 and (d.get("expires") is None or op["now"] - 5000 <= d["expires"])
+                should = inside and d.get("id") not in (op.get("revoked") or [])
+                if (d.get("id") in listed) != should:
+                    edge_bad += 1
+                    ctx.violation("C01:wallet-list:" + ("lists-expired-or-revoked" if not should else "omits-valid"),
+                                  f"wallet.List {'lists' if not should else 'omits'} {d.get('id')} (inside window: {inside}, revoked: {d.get('id') in (op.get('revoked') or [])})",
+                                  "wallet-list.jsonl", replay_text(i))
+        elif k == "wallet-present":
+            n_edge += 1
+            if (impl[i] == "ok") != bool(op.get("expectOK")):
+                edge_bad += 1
+                ctx.violation("C01:wallet-build-presentation-validate:" + op.get("label", ""), f"{op.get('label')}: BuildPresentation(validateVC) -> {impl[i]}",
+                              "wallet-present.jsonl", replay_text(i))
+    ctx.oblige("oracle:api-handlers/wallet/tampered-revocations(impl)", edge_bad == 0 and (n_edge > 0 or bool(ctx.replay)), f"{edge_bad} wrong of {n_edge}")
+
     # the issuer refuses to sign (JSON-LD) what the context does not define — those members would not be covered by the signature
     signed_undefined = 0
     n_issue = 0
@@ -266,9 +302,27 @@ def run(ctx):
             state["trust"] = {(t, i) for t, l in op["content"].items() for i in l}
         elif k == "revoke" and op.get("registered"):
             state["revoked"].add(op["id"])
-        elif k in ("vc", "vp") and impl[i].startswith("ok") and op.get("at") is not None and op.get("doc"):
+        elif k in ("vc", "vp") and impl[i].startswith("ok") and (op.get("at") is not None or op.get("via") == "api") and op.get("doc"):
             d = op["doc"]
             voi_checked += 1
+            if op.get("via") == "api":
+                # what the REST API promises: current time unless validAt is given; signature always checked; trust required for
+                # did:nuts issuers (vc) unless the caller opted out / for did:nuts presenters (vp); credentials verified unless opted out
+                op = dict(op)
+                if op.get("at") is None:
+                    op["at"] = op["now"]
+                if k == "vc":
+                    op["checkSig"] = True
+                    op["allowUntrusted"] = (not d["issuer"].startswith("did:nuts")) or op.get("option") is True
+                else:
+                    kid0 = ((d.get("jwt") or {}).get("kid") if (d.get("fmt") or "").startswith("jwt") else (d.get("proof") or {}).get("vm")) or ""
+                    op["checkSig"] = op.get("option") is not False
+                    op["allowUntrusted"] = not ((op.get("urls") or {}).get(kid0) or "").startswith("did:nuts:")
+            if op.get("storeFails"):
+                voi_bad += 1
+                ctx.violation("C01:reported-valid-while-revocation-store-cannot-answer:" + k, f"{op['label']} is reported valid although the revocation store returned an error",
+                              "store-down.jsonl", replay_text(i))
+                continue
             if k == "vc":
                 why = vc_reasons(d, op, op["checkSig"])
             else:
